@@ -449,6 +449,13 @@ class Base:
             return struct.pack("d", arg)
         if isinstance(arg, tuple):
             return b"".join(b"<" + Base._arg_serialize(a) + b">" for a in arg)
+        if isinstance(arg, FSort):
+            # hash() of a string depends on the interpreter's hash seed: the structural hash must be the same in every process
+            return b"FSort" + Base._arg_serialize((arg.exp, arg.mantissa))
+        if isinstance(arg, claripy.fp.RM):
+            return b"RM" + arg.name.encode()
+        if isinstance(arg, claripy.annotation.UninitializedAnnotation):
+            return b"UninitializedAnnotation"
         if isinstance(arg, claripy.annotation.StridedIntervalAnnotation):
             # hash() conflates -1 with -2 and integers that differ by a multiple of 2**61 - 1: serialize the fields themselves
             return b"SIA" + Base._arg_serialize((arg.stride, arg.lower_bound, arg.upper_bound))
